@@ -1,3 +1,374 @@
 import B6.Driver.Common
-/-! Driver for C11 — stub (the check for this property is not built yet). -/
-def main : IO Unit := B6.Driver.run { σ := Unit, init := (), step := fun s _ _ => (s, .bad) }
+import B6.Model.Records
+import B6.Model.RecordsTokenMap
+/-!
+Driver for C11 — every compact record kind through its codec.
+
+op     : `<kind>[!] <params…> | <value tokens> | <rest hex>`     (`!` = the Go side decoded into a used receiver)
+answer : `<marshalled hex> <bytes Unmarshal reported> | <decoded value tokens>` | `panic` | `<hex> panic`
+
+Per line the driver parses the value, marshals it with the model of `B6.Model.Records` (the bytes must equal the
+Go bytes; `none` must coincide with a Go panic), unmarshals *the Go bytes* `++ rest` with the model (decoded
+value and consumed count must equal the Go answer) and evaluates the property on the Go answer itself:
+decoded = encoded (`sortRefs` of it for the lists that `Marshal` sorts) — clause `roundtrip` — and
+consumed = number of marshalled bytes — clause `consumed`.  Values outside the property's domain (a mixed
+element with both halves set, a member type ≥ 4) are only compared with the model.
+
+Value tokens (flat prefix notation, counts first):
+  ref `tn:value` · ll `lat,lng` · refs `n ref…` · lls `n ll…` · mixed `n ref/ll…` · bits `0110…|-` · ints `n int…`
+  value `i int | p ll | L lls | R refs | M mixed` · tags `n (key value)…` · members `n (type role ref)…`
+  pll `ints lls` · agr `ints refs` · agl `n pll…` · agm `n (refs pll)…` · geom `GR agr | GL agl | GM agm`
+  nss `a,b,c,d` · nsi `tn:index` · nsis `n nsi…` · plh `tokenhex features nsis`
+-/
+open B6.Driver B6.Model.Records B6.Model.Varint
+namespace B6.Driver.C11
+
+/-! ## token parsers -/
+
+abbrev P (α : Type) := List String → Option (α × List String)
+
+def pTok : P String
+  | [] => none
+  | t :: ts => some (t, ts)
+
+def P.bind {α β : Type} (p : P α) (f : α → P β) : P β := fun ts =>
+  match p ts with
+  | none => none
+  | some (a, ts') => f a ts'
+def P.ret {α : Type} (a : α) : P α := fun ts => some (a, ts)
+instance : Monad P where
+  pure := P.ret
+  bind := P.bind
+
+def pOf {α : Type} (f : String → Option α) : P α := fun ts =>
+  match ts with
+  | [] => none
+  | t :: ts' => (f t).map fun a => (a, ts')
+
+def pRepeat {α : Type} (p : P α) : Nat → P (List α)
+  | 0 => pure []
+  | n + 1 => do
+    let a ← p
+    let as ← pRepeat p n
+    pure (a :: as)
+
+def natOf (s : String) : Option Nat := s.toNat?
+def u64Of (s : String) : Option (BitVec 64) := (s.toNat?).bind fun n => if n < 2 ^ 64 then some (BitVec.ofNat 64 n) else none
+def u16Of (s : String) : Option (BitVec 16) := (s.toNat?).bind fun n => if n < 2 ^ 16 then some (BitVec.ofNat 16 n) else none
+def i64Of (s : String) : Option (BitVec 64) :=
+  (s.toInt?).bind fun n => if -(2 ^ 63 : Int) ≤ n ∧ n < 2 ^ 63 then some (BitVec.ofInt 64 n) else none
+def i32Of (s : String) : Option (BitVec 32) :=
+  (s.toInt?).bind fun n => if -(2 ^ 31 : Int) ≤ n ∧ n < 2 ^ 31 then some (BitVec.ofInt 32 n) else none
+
+def refOf (s : String) : Option Reference :=
+  match s.splitOn ":" with
+  | [a, b] => do
+    let tn ← u16Of a
+    let v ← u64Of b
+    pure ⟨tn, v⟩
+  | _ => none
+def llOf (s : String) : Option LatLng :=
+  match s.splitOn "," with
+  | [a, b] => do
+    let x ← i32Of a
+    let y ← i32Of b
+    pure ⟨x, y⟩
+  | _ => none
+def refLLOf (s : String) : Option RefLL :=
+  match s.splitOn "/" with
+  | [a, b] => do
+    let r ← refOf a
+    let l ← llOf b
+    pure ⟨r, l⟩
+  | _ => none
+def bitsOf (s : String) : Option (List Bool) :=
+  if s == "-" then some [] else
+  s.toList.mapM fun c => if c == '1' then some true else if c == '0' then some false else none
+def nssOf (s : String) : Option Namespaces :=
+  match s.splitOn "," with
+  | [a, b, c, d] => do
+    let a ← u16Of a
+    let b ← u16Of b
+    let c ← u16Of c
+    let d ← u16Of d
+    pure ⟨a, b, c, d⟩
+  | _ => none
+def nsiOf (s : String) : Option NamespaceIndex :=
+  match s.splitOn ":" with
+  | [a, b] => do
+    let tn ← u16Of a
+    let v ← i64Of b
+    pure ⟨tn, v⟩
+  | _ => none
+
+def pCounted {α : Type} (p : P α) : P (List α) := do
+  let n ← pOf natOf
+  if n > 100000 then fun _ => none else pRepeat p n
+
+def pRefs : P (List Reference) := pCounted (pOf refOf)
+def pLLs : P (List LatLng) := pCounted (pOf llOf)
+def pMixed : P (List RefLL) := pCounted (pOf refLLOf)
+def pInts : P (List (BitVec 64)) := pCounted (pOf i64Of)
+
+def pValue : P Value := do
+  let k ← pTok
+  if k == "i" then (do let v ← pOf i64Of; pure (Value.int v))
+  else if k == "p" then (do let v ← pOf llOf; pure (Value.point v))
+  else if k == "L" then (do let v ← pLLs; pure (Value.latlngs v))
+  else if k == "R" then (do let v ← pRefs; pure (Value.refs v))
+  else if k == "M" then (do let v ← pMixed; pure (Value.mixed v))
+  else fun _ => none
+
+def pTag : P Tag := do
+  let k ← pOf i64Of
+  let v ← pValue
+  pure ⟨k, v⟩
+def pTags : P (List Tag) := pCounted pTag
+def pMember : P Member := do
+  let t ← pOf i64Of
+  let role ← pOf i64Of
+  let id ← pOf refOf
+  pure ⟨t, role, id⟩
+def pMembers : P (List Member) := pCounted pMember
+def pPLL : P PolygonLL := do
+  let loops ← pInts
+  let pts ← pLLs
+  pure ⟨loops, pts⟩
+def pAGR : P AreaGeomRefs := do
+  let polys ← pInts
+  let paths ← pRefs
+  pure ⟨polys, paths⟩
+def pAGL : P (List PolygonLL) := pCounted pPLL
+def pPMixed : P PolygonMixed := do
+  let rs ← pRefs
+  let q ← pPLL
+  pure ⟨rs, q⟩
+def pAGM : P (List PolygonMixed) := pCounted pPMixed
+def pGeom : P AreaGeometry := do
+  let k ← pTok
+  if k == "GR" then (do let v ← pAGR; pure (AreaGeometry.refs v))
+  else if k == "GL" then (do let v ← pAGL; pure (AreaGeometry.latlngs v))
+  else if k == "GM" then (do let v ← pAGM; pure (AreaGeometry.mixed v))
+  else fun _ => none
+def pNSIs : P (List NamespaceIndex) := pCounted (pOf nsiOf)
+def pPLH : P PostingListHeader := do
+  let tok ← pOf parseHex
+  let f ← pOf i64Of
+  let ns ← pNSIs
+  pure ⟨tok, f, ns⟩
+
+/-- run a parser on a whole token list; all tokens must be consumed. -/
+def parseAll {α : Type} (p : P α) (ts : List String) : Option α :=
+  match p ts with
+  | some (a, []) => some a
+  | _ => none
+
+/-! ## rendering (must match harness/cmd/c11/main.go) -/
+
+def j (xs : List String) : String := " ".intercalate xs
+def rU (v : BitVec 64) : String := toString v.toNat
+def rI (v : BitVec 64) : String := toString v.toInt
+def rRef (r : Reference) : String := toString r.tn.toNat ++ ":" ++ toString r.value.toNat
+def rLL (l : LatLng) : String := toString l.lat.toInt ++ "," ++ toString l.lng.toInt
+def rCounted {α : Type} (f : α → String) (xs : List α) : String := j (toString xs.length :: xs.map f)
+def rRefs : List Reference → String := rCounted rRef
+def rLLs : List LatLng → String := rCounted rLL
+def rMixed : List RefLL → String := rCounted fun x => rRef x.ref ++ "/" ++ rLL x.ll
+def rBits (b : List Bool) : String := if b.isEmpty then "-" else String.ofList (b.map fun v => if v then '1' else '0')
+def rInts : List (BitVec 64) → String := rCounted rI
+def rValue : Value → String
+  | .int v => "i " ++ rI v
+  | .point l => "p " ++ rLL l
+  | .latlngs l => "L " ++ rLLs l
+  | .refs l => "R " ++ rRefs l
+  | .mixed l => "M " ++ rMixed l
+def rTags : List Tag → String := rCounted fun t => rI t.key ++ " " ++ rValue t.value
+def rMembers : List Member → String := rCounted fun m => j [rI m.type, rI m.role, rRef m.id]
+def rPLL (q : PolygonLL) : String := rInts q.loops ++ " " ++ rLLs q.points
+def rAGR (a : AreaGeomRefs) : String := rInts a.polygons ++ " " ++ rRefs a.paths
+def rAGL : List PolygonLL → String := rCounted rPLL
+def rAGM : List PolygonMixed → String := rCounted fun q => rRefs q.paths ++ " " ++ rPLL q.ll
+def rGeom : AreaGeometry → String
+  | .refs a => "GR " ++ rAGR a
+  | .latlngs ps => "GL " ++ rAGL ps
+  | .mixed ps => "GM " ++ rAGM ps
+def rNss (n : Namespaces) : String :=
+  ",".intercalate [toString n.point.toNat, toString n.path.toNat, toString n.area.toNat, toString n.relation.toNat]
+def rNSI (x : NamespaceIndex) : String := toString x.tn.toNat ++ ":" ++ rI x.index
+def rNSIs : List NamespaceIndex → String := rCounted rNSI
+def rPLH (h : PostingListHeader) : String := j [renderHex h.token, rI h.features, rNSIs h.namespaces]
+
+/-! ## one record kind = how to marshal the parsed value, what must come back, how to decode -/
+
+structure Codec where
+  marshal : Option Bytes
+  /-- rendering of the value the property demands to come back -/
+  expected : String
+  decode : Bytes → Option (String × Nat)
+  /-- value inside the property's domain (otherwise only model = implementation is checked) -/
+  inDomain : Bool := true
+
+def mk {α : Type} (p : P α) (ts : List String) (marshal : α → Option Bytes) (expect : α → α) (render : α → String)
+    (dec : Dec α) (dom : α → Bool := fun _ => true) : Option Codec :=
+  (parseAll p ts).map fun v =>
+    { marshal := marshal v, expected := render (expect v),
+      decode := fun bs => (dec bs).map fun r => (render r.1, r.2), inDomain := dom v }
+
+def stripBang (k : String) : String := if k.endsWith "!" then sdropEnd k 1 else k
+
+def codecFor (kind : String) (params : List String) (ts : List String) : Option Codec :=
+  match kind, params with
+  | "ref", [p] => (u16Of p).bind fun p =>
+      mk (pOf refOf) ts (fun r => some (Reference.enc p r)) id rRef (Reference.dec p)
+  | "refs", [p] => (u16Of p).bind fun p => mk pRefs ts (References.marshal p) id rRefs (References.dec p)
+  | "ll", [] => mk (pOf llOf) ts LatLng.marshal id rLL LatLng.dec
+  | "lls", [] => mk pLLs ts LatLngs.marshal id rLLs LatLngs.dec
+  | "mixed", [p] => (u16Of p).bind fun p =>
+      mk pMixed ts (RefLLs.marshal p) id rMixed (RefLLs.dec p) (fun g => g.all RefLL.canonical)
+  | "bits", [] => mk (pOf bitsOf) ts Bits.marshal id rBits Bits.dec
+  | "int", [] => mk (pOf i64Of) ts (fun v => if (Value.int v).ok then some ((Value.int v).enc 0#16) else none) id rI Int.dec
+  | "tags", [p] => (u16Of p).bind fun p =>
+      mk pTags ts (Tags.marshal p) id rTags (Tags.dec p)
+        (fun t => t.all fun x => match x.value with | .mixed g => g.all RefLL.canonical | _ => true)
+  | "mtags", [p] => (u16Of p).bind fun p => mk pTags ts (Tags.marshal p) id rTags (Tags.dec p)
+  | "members", [p] => (u16Of p).bind fun p =>
+      mk pMembers ts (Members.marshal p) id rMembers (Members.dec p) (fun ms => ms.all fun m => m.type.toNat < 4)
+  | "agr", [p] => (u16Of p).bind fun p => mk pAGR ts (AreaGeomRefs.marshal p) id rAGR (AreaGeomRefs.dec p)
+  | "agl", [] => mk pAGL ts AreaGeomLL.marshal id rAGL AreaGeomLL.dec
+  | "agm", [p] => (u16Of p).bind fun p =>
+      mk pAGM ts (AreaGeomMixed.marshal p) id rAGM (AreaGeomMixed.dec p) (fun ps => ps.all PolygonMixed.canonical)
+  | "pll", [] => mk pPLL ts PolygonLL.marshal id rPLL PolygonLL.dec
+  | "geom", [p] => (u16Of p).bind fun p =>
+      mk pGeom ts (fun g => if g.ok then some (g.enc p) else none) id rGeom (AreaGeometry.dec p)
+        (fun g => match g with | .mixed ps => ps.all PolygonMixed.canonical | _ => true)
+  | "nss", [] => mk (pOf nssOf) ts (fun n => some n.enc) id rNss Namespaces.dec
+  | "str", [] => mk (pOf parseHex) ts Str.marshal id renderHex Str.dec
+  | "nsi", [] => mk (pOf nsiOf) ts (fun x => some x.enc) id rNSI NamespaceIndex.dec
+  | "nsis", [] => mk pNSIs ts NamespaceIndices.marshal id rNSIs NamespaceIndices.dec
+  | "plh", [] => mk pPLH ts PostingListHeader.marshal id rPLH PostingListHeader.dec
+  | "area", [n] => (nssOf n).bind fun n =>
+      mk (do let t ← pTags; let g ← pGeom; let r ← pRefs; pure (⟨t, g, r⟩ : Area)) ts (Area.marshal n) id
+        (fun a => j [rTags a.tags, rGeom a.polygons, rRefs a.relations]) (Area.dec n)
+        (fun a => match a.polygons with | .mixed ps => ps.all PolygonMixed.canonical | _ => true)
+  | "path", [n] => (nssOf n).bind fun n =>
+      mk (do let t ← pTags; let a ← pRefs; let r ← pRefs; pure (⟨t, a, r⟩ : Path)) ts (Path.marshal n) Path.sorted
+        (fun p => j [rTags p.tags, rRefs p.areas, rRefs p.relations]) (Path.dec n)
+  | "cpoint", [n] => (nssOf n).bind fun n =>
+      mk (do let t ← pTags; let r ← pOf refOf; pure (⟨t, r⟩ : CommonPoint)) ts (CommonPoint.marshal n) id
+        (fun c => j [rTags c.tags, rRef c.path]) (CommonPoint.dec n)
+  | "prefs", [n] => (nssOf n).bind fun n =>
+      mk (do let a ← pRefs; let b ← pRefs; pure (⟨a, b⟩ : PointReferences)) ts (PointReferences.marshal n)
+        PointReferences.sorted (fun p => j [rRefs p.paths, rRefs p.relations]) (PointReferences.dec n)
+  | "fpoint", [n] => (nssOf n).bind fun n =>
+      mk (do let t ← pTags; let a ← pRefs; let b ← pRefs; pure (⟨t, ⟨a, b⟩⟩ : FullPoint)) ts (FullPoint.marshal n)
+        FullPoint.sorted (fun p => j [rTags p.tags, rRefs p.refs.paths, rRefs p.refs.relations]) (FullPoint.dec n)
+  | "relation", [t, n] => (i64Of t).bind fun t => (nssOf n).bind fun n =>
+      mk (do let tg ← pTags; let m ← pMembers; let r ← pRefs; pure (⟨tg, m, r⟩ : Relation)) ts (Relation.marshal t n) id
+        (fun r => j [rTags r.tags, rMembers r.members, rRefs r.relations]) (Relation.dec t n)
+        (fun r => r.members.all fun m => m.type.toNat < 4)
+  | "ints", [] =>
+      -- `UnmarshalDeltaCodedInts(vs, n, buffer)` is given the count by its caller: the harness passes `len(v)`
+      (parseAll pInts ts).map fun v =>
+        { marshal := some (DeltaInts.enc v), expected := rInts v,
+          decode := fun bs => (DeltaInts.dec v.length bs).map fun r => (rInts r.1, r.2) }
+  | _, _ => none
+
+/-! ## TokenMap -/
+
+open B6.Model.RecordsTokenMap in
+def tokenMapStep (parts : List String) (impl : String) : Verdict :=
+  match parts with
+  | [addsS, queriesS, restS] =>
+    let pAdd : P (Bytes × BitVec 64) := pOf fun s =>
+      match s.splitOn ":" with
+      | [a, b] => do
+        let t ← parseHex a
+        let v ← i64Of b
+        pure (t, v)
+      | _ => none
+    match parseAll (pCounted pAdd) (words addsS), parseAll (pCounted (pOf parseHex)) (words queriesS), parseHex (strim restS) with
+    | some adds, some queries, some rest =>
+      let enc := addAll adds
+      let bytes := encode enc
+      let m := decodeLength (bytes ++ rest)
+      let finds := queries.map fun q =>
+        match findPossibleIndices (bytes ++ rest) q with
+        | some is => if is.isEmpty then "-" else ",".intercalate (is.map rI)
+        | none => "panic"
+      let lenS := match m with | some n => toString n | none => "panic"
+      let model := s!"{renderHex bytes} {bytes.length} {lenS} | {j finds}"
+      -- property: every added (token, index) is among the possible indices reported for the token,
+      -- and the bytes Unmarshal reports = the bytes written
+      match impl.splitOn " | " with
+      | [left, right] =>
+        match words left with
+        | [hexI, lenI, gotI] =>
+          let okLen := lenI == gotI && (parseHex hexI).map (·.length) == lenI.toNat?
+          let lists := (words right).map fun w => if w == "-" then [] else w.splitOn ","
+          let okFind := lists.length == queries.length && (adds.zip lists).all fun (a, l) => l.contains (rI a.2)
+          if !okLen then .propfail "tokenmap-consumed"
+          else if !okFind then .propfail "tokenmap-find"
+          else if impl == model then .ok else .diff model
+        | _ => .bad
+      | _ => if impl == model then .ok else .diff model
+    | _, _, _ => .bad
+  | _ => .bad
+
+/-! ## the step -/
+
+def step (_ : Unit) (op impl : String) : Unit × Verdict :=
+  match op.splitOn " | " with
+  | head :: rest1 =>
+    match words head with
+    | [] => ((), .bad)
+    | kind0 :: params =>
+      let kind := stripBang kind0
+      if kind == "tokenmap" then ((), tokenMapStep rest1 impl) else
+      match rest1 with
+      | [valueS, restS] =>
+        match codecFor kind params (words valueS), parseHex (strim restS) with
+        | some c, some rest =>
+          let modelAnswer : String :=
+            match c.marshal with
+            | none => "panic"
+            | some mb =>
+              match c.decode (mb ++ rest) with
+              | some (s, n) => s!"{renderHex mb} {n} | {s}"
+              | none => s!"{renderHex mb} panic"
+          if impl == "panic" then ((), if modelAnswer == "panic" then .ok else .diff modelAnswer) else
+          match impl.splitOn " | " with
+          | [left] =>
+            -- `<hex> panic`: Unmarshal panicked on Marshal's own output — never acceptable inside the domain
+            if c.inDomain then ((), .propfail "roundtrip") else ((), if impl == modelAnswer then .ok else .diff modelAnswer)
+          | [left, decodedI] =>
+            match words left with
+            | [hexI, consumedI] =>
+              match parseHex hexI, consumedI.toNat? with
+              | some bytesI, some nI =>
+                let viol : Option String :=
+                  if !c.inDomain then none
+                  else if decodedI != c.expected then some "roundtrip"
+                  else if nI != bytesI.length then some "consumed"
+                  else none
+                match viol with
+                | some clause => ((), .propfail clause)
+                | none =>
+                  -- model decode of the *Go* bytes
+                  let md := match c.decode (bytesI ++ rest) with
+                    | some (s, n) => s!"{n} | {s}"
+                    | none => "panic"
+                  if some bytesI != c.marshal then ((), .diff modelAnswer)
+                  else if md != s!"{nI} | {decodedI}" then ((), .diff modelAnswer)
+                  else ((), .ok)
+              | _, _ => ((), .bad)
+            | _ => ((), .bad)
+          | _ => ((), .bad)
+        | _, _ => ((), .bad)
+      | _ => ((), .bad)
+  | _ => ((), .bad)
+
+def family : Family := { σ := Unit, init := (), step := step }
+
+end B6.Driver.C11
+
+def main : IO Unit := B6.Driver.run B6.Driver.C11.family
